@@ -375,6 +375,27 @@ def run_c07(rep, tier):
     extra = c07_calls(tier, r)
     rep.notes['byte_pair_inputs'] = 65536 if tier == 'thorough' else 2304
     run_vectors(rep, tier, {'C07'}, extra)
+    # sequences: the mode is detected once for the whole message (also for messages longer than any single symbol)
+    from . import props_seq
+    seq_calls = []
+    for kind_fn, n in ((gen.kanji, 1900), (gen.kanji, 700), (gen.digits, 7200), (gen.alnum, 4400), (gen.latin1, 3000), (gen.kanji, 12), (gen.digits, 30)):
+        content = kind_fn(r, n)
+        seq_calls.append(call('make_sequence', content, symbol_count=4 if n > 100 else 2))
+        if n > 1000:
+            seq_calls.append(call('make_sequence', content, version=20 if n < 5000 else 30))
+    with __import__('multiprocessing').get_context('fork').Pool(min(8, common.NCPU)) as pool:
+        sobs = pool.map(props_seq.seq_observation, seq_calls, chunksize=1)
+    sobs = [o for o in sobs if o['outcome']['status'] == 'ok']
+    sv, st = common.validate_observations(rep.pid, 'Trace_Seq', sobs, tag='seqmode', timeout=3000)
+    rep.add_trace_stats(st, len(sobs))
+    rep.evaluations += len(seq_calls)
+    for o in sobs:
+        v = sv[o['tid']]
+        fails = sorted(c for (p, c) in v['fails'] if p == 'C07')
+        rep.keys.add(('SEQ', engine.brief_call(o['_call'])[:50]))
+        if fails:
+            rep.violation({'kind': 'seq', 'module': 'props_seq', 'call': o['_call'], 'failing_clauses': fails, 'facts': v['facts']},
+                          f"{engine.brief_call(o['_call'])}: symbols carry modes {v['facts'].get('modes')}; fails {fails}")
     rep.exhaustive = False
     rep.notes['exhaustive_subspaces'] = ['all 256 one-byte inputs'] + (['all 65536 two-byte inputs'] if tier == 'thorough' else
                                                                      ['all 256 lead bytes x 9 boundary trail bytes'])
